@@ -74,35 +74,45 @@ func efundScenario() *Scenario {
 		Action{Name: "wait(1s)", Dt: time.Second},
 	)
 	s.Actions[len(s.Actions)-2].Enabled = func(m *model.State, _ map[string]int) bool { return !m.FeeAl["G|PA"] }
-	s.Prefix = []string{"raise(PA,50)", "raise(PB,50)", "raise(PC,5)", "raise(PD,5)", "accept(S1,#1)", "accept(S1,#2)", "accept(S1,#3)", "accept(S1,#4)", "feegrant(G->PA)", "wait(1s)", "wait(1s)"}
+	// a granter that itself holds locked eFUND pays the fees of payers with locked eFUND
+	fg := one("feegrant(PA->PC,PD)", model.Tx{Msgs: []model.Msg{{Kind: model.FeeGrant, From: "PA", To: "PC"}, {Kind: model.FeeGrant, From: "PA", To: "PD"}}})
+	fg.PrefixOnly = true
+	s.Actions = append(s.Actions, fg)
+	s.Prefix = []string{"raise(PA,50)", "raise(PB,50)", "raise(PC,5)", "raise(PD,5)", "accept(S1,#1)", "accept(S1,#2)", "accept(S1,#3)", "accept(S1,#4)", "feegrant(G->PA)", "feegrant(PA->PC,PD)", "wait(1s)", "wait(1s)"}
 
 	// fee-paying letters
 	for _, p := range []string{"PA", "PB", "PC", "PD"} {
 		p := p
-		s.Actions = append(s.Actions,
-			one("wreg("+p+",fee10)", model.Tx{Msgs: []model.Msg{wregMsg(p)}, Fee: fee(10)}),
-			act("wrec("+p+",fee10)", func(m *model.State) []model.Tx {
+		s.Actions = append(s.Actions, one("wreg("+p+",fee10)", model.Tx{Msgs: []model.Msg{wregMsg(p)}, Fee: fee(10)}))
+		if p == "PA" || p == "PB" {
+			s.Actions = append(s.Actions, act("wrec("+p+",fee10)", func(m *model.State) []model.Tx {
 				return []model.Tx{{Msgs: []model.Msg{wrecMsg(m, p)}, Fee: fee(10)}}
-			}),
-		)
+			}))
+		}
 	}
 	for _, p := range []string{"PA", "PB"} {
 		p := p
 		s.Actions = append(s.Actions,
-			one("wreg("+p+",fee10,badsig)", model.Tx{Msgs: []model.Msg{wregMsg(p)}, Fee: fee(10), BadSig: true}),
-			one("wreg("+p+",fee10,staleseq)", model.Tx{Msgs: []model.Msg{wregMsg(p)}, Fee: fee(10), SeqDelta: -1}),
 			one("wreg+wreg("+p+",fee20)", model.Tx{Msgs: []model.Msg{wregMsg(p), wregMsg(p)}, Fee: fee(20)}),
 			act("wreg+wrec#99("+p+",fee20)", func(m *model.State) []model.Tx {
 				return []model.Tx{{Msgs: []model.Msg{wregMsg(p), {Kind: model.WrkRec, From: p, ID: 99, H: 1, S: []string{"0xb", "", "", "", ""}}}, Fee: fee(20)}}
 			}),
 			one("send("+p+"->O,1,fee10)", model.Tx{Msgs: []model.Msg{{Kind: model.BankSend, From: p, To: "O", Den: mc.Nund, Amt: "1"}}, Fee: fee(10)}),
-			one("stream("+p+"->O,60@1)", model.Tx{Msgs: []model.Msg{{Kind: model.StrCreate, From: p, To: "O", Den: mc.Nund, Amt: "60", Rate: 1}}}),
-			one("send("+p+"->escrow,1)", model.Tx{Msgs: []model.Msg{{Kind: model.BankSend, From: p, To: model.ModEnt, Den: mc.Nund, Amt: "1"}}}),
 		)
 	}
+	// PA (locked 50, rich) and PB (locked 50, nothing liquid) differ only in what is liquid: the variants that fail
+	// in the ante chain after the unlock, and the non-anchoring transactions, are driven for one of them each
+	s.Actions = append(s.Actions,
+		one("wreg(PA,fee10,badsig)", model.Tx{Msgs: []model.Msg{wregMsg("PA")}, Fee: fee(10), BadSig: true}),
+		one("wreg(PB,fee10,staleseq)", model.Tx{Msgs: []model.Msg{wregMsg("PB")}, Fee: fee(10), SeqDelta: -1}),
+		one("stream(PB->O,60@1)", model.Tx{Msgs: []model.Msg{{Kind: model.StrCreate, From: "PB", To: "O", Den: mc.Nund, Amt: "60", Rate: 1}}}),
+		one("send(PA->escrow,1)", model.Tx{Msgs: []model.Msg{{Kind: model.BankSend, From: "PA", To: model.ModEnt, Den: mc.Nund, Amt: "1"}}}),
+	)
 	s.Actions = append(s.Actions,
 		one("breg(PA,fee10)", model.Tx{Msgs: []model.Msg{{Kind: model.BcnReg, From: "PA", S: []string{"bmon", "bname"}}}, Fee: fee(10)}),
 		one("wreg(PA,fee10,granter=G)", model.Tx{Msgs: []model.Msg{wregMsg("PA")}, Fee: fee(10), FeeGranter: "G"}),
+		one("wreg(PD,fee10,granter=PA)", model.Tx{Msgs: []model.Msg{wregMsg("PD")}, Fee: fee(10), FeeGranter: "PA"}),
+		one("wreg(PC,fee10,granter=PA)", model.Tx{Msgs: []model.Msg{wregMsg("PC")}, Fee: fee(10), FeeGranter: "PA"}),
 		one("wreg(PA,fee10+1tok)", model.Tx{Msgs: []model.Msg{wregMsg("PA")}, Fee: map[string]string{mc.Nund: "10", mc.Tok: "1"}}),
 		one("wreg(PA,fee60)", model.Tx{Msgs: []model.Msg{wregMsg("PA")}, Fee: fee(60)}),
 		// messages of both modules in one transaction: the fee is still unlocked once
